@@ -1147,6 +1147,11 @@ type Model struct {
 }
 
 type treasure struct {
+	// mu protects the fields below. The getters take it for reading. The setters
+	// (Set*, ResetContent*, BodySet*) run under the record guard, which orders
+	// writers among themselves, but readers that do not take the guard (index
+	// sorting, filter evaluation, expiry checks) only take mu - so the setters
+	// change the fields under mu as well.
 	mu       sync.RWMutex
 	treasure Model
 	guard.Guard
@@ -1232,6 +1237,8 @@ func (t *treasure) GetContentType() ContentType {
 }
 
 func (t *treasure) ResetContentByteArray(guardID guard.ID) {
+	t.mu.Lock()
+	defer t.mu.Unlock()
 	_ = t.Guard.CanExecute(guardID)
 	if t.treasure.Content != nil && t.treasure.Content.ByteArray != nil {
 		t.contentChanged = true
@@ -1240,6 +1247,8 @@ func (t *treasure) ResetContentByteArray(guardID guard.ID) {
 	}
 }
 func (t *treasure) ResetContentBool(guardID guard.ID) {
+	t.mu.Lock()
+	defer t.mu.Unlock()
 	_ = t.Guard.CanExecute(guardID)
 	if t.treasure.Content != nil && t.treasure.Content.Boolean != nil {
 		t.contentChanged = true
@@ -1248,6 +1257,8 @@ func (t *treasure) ResetContentBool(guardID guard.ID) {
 	}
 }
 func (t *treasure) ResetContentFloat32(guardID guard.ID) {
+	t.mu.Lock()
+	defer t.mu.Unlock()
 	_ = t.Guard.CanExecute(guardID)
 	if t.treasure.Content != nil && t.treasure.Content.Float32 != nil {
 		t.contentChanged = true
@@ -1256,6 +1267,8 @@ func (t *treasure) ResetContentFloat32(guardID guard.ID) {
 	}
 }
 func (t *treasure) ResetContentFloat64(guardID guard.ID) {
+	t.mu.Lock()
+	defer t.mu.Unlock()
 	_ = t.Guard.CanExecute(guardID)
 	if t.treasure.Content != nil && t.treasure.Content.Float64 != nil {
 		t.contentChanged = true
@@ -1264,6 +1277,8 @@ func (t *treasure) ResetContentFloat64(guardID guard.ID) {
 	}
 }
 func (t *treasure) ResetContentUint8(guardID guard.ID) {
+	t.mu.Lock()
+	defer t.mu.Unlock()
 	_ = t.Guard.CanExecute(guardID)
 	if t.treasure.Content != nil && t.treasure.Content.Uint8 != nil {
 		t.contentChanged = true
@@ -1272,6 +1287,8 @@ func (t *treasure) ResetContentUint8(guardID guard.ID) {
 	}
 }
 func (t *treasure) ResetContentUint16(guardID guard.ID) {
+	t.mu.Lock()
+	defer t.mu.Unlock()
 	_ = t.Guard.CanExecute(guardID)
 	if t.treasure.Content != nil && t.treasure.Content.Uint16 != nil {
 		t.contentChanged = true
@@ -1280,6 +1297,8 @@ func (t *treasure) ResetContentUint16(guardID guard.ID) {
 	}
 }
 func (t *treasure) ResetContentUint32(guardID guard.ID) {
+	t.mu.Lock()
+	defer t.mu.Unlock()
 	_ = t.Guard.CanExecute(guardID)
 	if t.treasure.Content != nil && t.treasure.Content.Uint32 != nil {
 		t.contentChanged = true
@@ -1288,6 +1307,8 @@ func (t *treasure) ResetContentUint32(guardID guard.ID) {
 	}
 }
 func (t *treasure) ResetContentUint64(guardID guard.ID) {
+	t.mu.Lock()
+	defer t.mu.Unlock()
 	_ = t.Guard.CanExecute(guardID)
 	if t.treasure.Content != nil && t.treasure.Content.Uint64 != nil {
 		t.contentChanged = true
@@ -1296,6 +1317,8 @@ func (t *treasure) ResetContentUint64(guardID guard.ID) {
 	}
 }
 func (t *treasure) ResetContentInt8(guardID guard.ID) {
+	t.mu.Lock()
+	defer t.mu.Unlock()
 	_ = t.Guard.CanExecute(guardID)
 	if t.treasure.Content != nil && t.treasure.Content.Int8 != nil {
 		t.contentChanged = true
@@ -1304,6 +1327,8 @@ func (t *treasure) ResetContentInt8(guardID guard.ID) {
 	}
 }
 func (t *treasure) ResetContentInt16(guardID guard.ID) {
+	t.mu.Lock()
+	defer t.mu.Unlock()
 	_ = t.Guard.CanExecute(guardID)
 	if t.treasure.Content != nil && t.treasure.Content.Int16 != nil {
 		t.contentChanged = true
@@ -1312,6 +1337,8 @@ func (t *treasure) ResetContentInt16(guardID guard.ID) {
 	}
 }
 func (t *treasure) ResetContentInt32(guardID guard.ID) {
+	t.mu.Lock()
+	defer t.mu.Unlock()
 	_ = t.Guard.CanExecute(guardID)
 	if t.treasure.Content != nil && t.treasure.Content.Int32 != nil {
 		t.contentChanged = true
@@ -1320,6 +1347,8 @@ func (t *treasure) ResetContentInt32(guardID guard.ID) {
 	}
 }
 func (t *treasure) ResetContentInt64(guardID guard.ID) {
+	t.mu.Lock()
+	defer t.mu.Unlock()
 	_ = t.Guard.CanExecute(guardID)
 	if t.treasure.Content != nil && t.treasure.Content.Int64 != nil {
 		t.contentChanged = true
@@ -1328,6 +1357,8 @@ func (t *treasure) ResetContentInt64(guardID guard.ID) {
 	}
 }
 func (t *treasure) ResetContentUint32Slice(guardID guard.ID) {
+	t.mu.Lock()
+	defer t.mu.Unlock()
 	_ = t.Guard.CanExecute(guardID)
 	if t.treasure.Content != nil && t.treasure.Content.Uint32Slice != nil {
 		t.contentChanged = true
@@ -1337,6 +1368,8 @@ func (t *treasure) ResetContentUint32Slice(guardID guard.ID) {
 }
 
 func (t *treasure) ResetContentString(guardID guard.ID) {
+	t.mu.Lock()
+	defer t.mu.Unlock()
 	_ = t.Guard.CanExecute(guardID)
 	if t.treasure.Content != nil && t.treasure.Content.String != nil {
 		t.contentChanged = true
@@ -1345,6 +1378,8 @@ func (t *treasure) ResetContentString(guardID guard.ID) {
 	}
 }
 func (t *treasure) ResetContentVoid(guardID guard.ID) {
+	t.mu.Lock()
+	defer t.mu.Unlock()
 	_ = t.Guard.CanExecute(guardID)
 	if t.treasure.Content != nil && t.treasure.Content.Void {
 		t.contentTypeChanged = true
@@ -1354,11 +1389,15 @@ func (t *treasure) ResetContentVoid(guardID guard.ID) {
 }
 
 func (t *treasure) SetCreatedBy(guardID guard.ID, createdBy string) {
+	t.mu.Lock()
+	defer t.mu.Unlock()
 	_ = t.Guard.CanExecute(guardID)
 	t.createdByChanged = true
 	t.treasure.CreatedBy = createdBy
 }
 func (t *treasure) SetModifiedBy(guardID guard.ID, modifiedBy string) {
+	t.mu.Lock()
+	defer t.mu.Unlock()
 	_ = t.Guard.CanExecute(guardID)
 	t.modifiedByChanged = true
 	t.treasure.ModifiedBy = modifiedBy
@@ -1459,11 +1498,13 @@ func (t *treasure) cloneContent() Content {
 }
 
 func (t *treasure) SetContent(guardID guard.ID, content Content) {
+	t.mu.Lock()
+	defer t.mu.Unlock()
 
 	_ = t.Guard.CanExecute(guardID)
 
 	t.contentChanged = false
-	if t.IsContentTypeChanged() {
+	if t.contentTypeChanged {
 		t.contentChanged = true
 	}
 
@@ -1551,6 +1592,8 @@ func (t *treasure) CheckIfContentChanged(newContent *Content) bool {
 }
 
 func (t *treasure) BodySetFileName(guardID guard.ID, fileName string) {
+	t.mu.Lock()
+	defer t.mu.Unlock()
 	if canExecuteErr := t.Guard.CanExecute(guardID); canExecuteErr != nil {
 		return
 	}
@@ -1559,6 +1602,8 @@ func (t *treasure) BodySetFileName(guardID guard.ID, fileName string) {
 }
 
 func (t *treasure) BodySetForDeletion(guardID guard.ID, byUserID string, shadowDelete bool) {
+	t.mu.Lock()
+	defer t.mu.Unlock()
 	if canExecuteErr := t.Guard.CanExecute(guardID); canExecuteErr != nil {
 		return
 	}
@@ -1590,6 +1635,8 @@ func (t *treasure) GetKey() string {
 }
 
 func (t *treasure) SetExpirationTime(guardID guard.ID, expirationTime time.Time) {
+	t.mu.Lock()
+	defer t.mu.Unlock()
 	_ = t.Guard.CanExecute(guardID)
 	t.expirationTimeChanged = true
 	// A zero time.Time means "no expiration" (matches the ExpirationTime == 0
@@ -1640,6 +1687,8 @@ func (t *treasure) GetShadowDelete() bool {
 }
 
 func (t *treasure) SetModifiedAt(guardID guard.ID, modifiedAt time.Time) {
+	t.mu.Lock()
+	defer t.mu.Unlock()
 	_ = t.Guard.CanExecute(guardID)
 	t.modifiedAtChanged = true
 	t.treasure.ModifiedAt = modifiedAt.UTC().UnixNano()
@@ -1665,6 +1714,8 @@ func (t *treasure) GetFileName() *string {
 
 // BodySetKey sets the key of the treasure
 func (t *treasure) BodySetKey(guardID guard.ID, key string) {
+	t.mu.Lock()
+	defer t.mu.Unlock()
 	if canExecuteErr := t.Guard.CanExecute(guardID); canExecuteErr != nil {
 		return // do nothing
 	}
@@ -1747,6 +1798,8 @@ func (t *treasure) LoadFromByte(guardID guard.ID, b []byte, fileName string) err
 }
 
 func (t *treasure) SetContentVoid(guardID guard.ID) {
+	t.mu.Lock()
+	defer t.mu.Unlock()
 	_ = t.Guard.CanExecute(guardID)
 
 	// if the content is not changed, do nothing
@@ -1764,6 +1817,8 @@ func (t *treasure) SetContentVoid(guardID guard.ID) {
 }
 
 func (t *treasure) SetContentString(guardID guard.ID, content string) {
+	t.mu.Lock()
+	defer t.mu.Unlock()
 	_ = t.Guard.CanExecute(guardID)
 
 	// if the content is not changed, do nothing
@@ -1778,6 +1833,8 @@ func (t *treasure) SetContentString(guardID guard.ID, content string) {
 }
 
 func (t *treasure) SetContentUint8(guardID guard.ID, content uint8) {
+	t.mu.Lock()
+	defer t.mu.Unlock()
 	_ = t.Guard.CanExecute(guardID)
 	// if the content is not changed, do nothing
 	if t.treasure.Content != nil && t.treasure.Content.Uint8 != nil && *t.treasure.Content.Uint8 == content {
@@ -1789,6 +1846,8 @@ func (t *treasure) SetContentUint8(guardID guard.ID, content uint8) {
 	}
 }
 func (t *treasure) SetContentUint16(guardID guard.ID, content uint16) {
+	t.mu.Lock()
+	defer t.mu.Unlock()
 	_ = t.Guard.CanExecute(guardID)
 	// if the content is not changed, do nothing
 	if t.treasure.Content != nil && t.treasure.Content.Uint16 != nil && *t.treasure.Content.Uint16 == content {
@@ -1800,6 +1859,8 @@ func (t *treasure) SetContentUint16(guardID guard.ID, content uint16) {
 	}
 }
 func (t *treasure) SetContentUint32(guardID guard.ID, content uint32) {
+	t.mu.Lock()
+	defer t.mu.Unlock()
 	_ = t.Guard.CanExecute(guardID)
 	// if the content is not changed, do nothing
 	if t.treasure.Content != nil && t.treasure.Content.Uint32 != nil && *t.treasure.Content.Uint32 == content {
@@ -1811,6 +1872,8 @@ func (t *treasure) SetContentUint32(guardID guard.ID, content uint32) {
 	}
 }
 func (t *treasure) SetContentUint64(guardID guard.ID, content uint64) {
+	t.mu.Lock()
+	defer t.mu.Unlock()
 	_ = t.Guard.CanExecute(guardID)
 	// if the content is not changed, do nothing
 	if t.treasure.Content != nil && t.treasure.Content.Uint64 != nil && *t.treasure.Content.Uint64 == content {
@@ -1822,6 +1885,8 @@ func (t *treasure) SetContentUint64(guardID guard.ID, content uint64) {
 	}
 }
 func (t *treasure) SetContentInt8(guardID guard.ID, content int8) {
+	t.mu.Lock()
+	defer t.mu.Unlock()
 	_ = t.Guard.CanExecute(guardID)
 	// if the content is not changed, do nothing
 	if t.treasure.Content != nil && t.treasure.Content.Int8 != nil && *t.treasure.Content.Int8 == content {
@@ -1833,6 +1898,8 @@ func (t *treasure) SetContentInt8(guardID guard.ID, content int8) {
 	}
 }
 func (t *treasure) SetContentInt16(guardID guard.ID, content int16) {
+	t.mu.Lock()
+	defer t.mu.Unlock()
 	_ = t.Guard.CanExecute(guardID)
 	// if the content is not changed, do nothing
 	if t.treasure.Content != nil && t.treasure.Content.Int16 != nil && *t.treasure.Content.Int16 == content {
@@ -1844,6 +1911,8 @@ func (t *treasure) SetContentInt16(guardID guard.ID, content int16) {
 	}
 }
 func (t *treasure) SetContentInt32(guardID guard.ID, content int32) {
+	t.mu.Lock()
+	defer t.mu.Unlock()
 	_ = t.Guard.CanExecute(guardID)
 	// if the content is not changed, do nothing
 	if t.treasure.Content != nil && t.treasure.Content.Int32 != nil && *t.treasure.Content.Int32 == content {
@@ -1855,6 +1924,8 @@ func (t *treasure) SetContentInt32(guardID guard.ID, content int32) {
 	}
 }
 func (t *treasure) SetContentInt64(guardID guard.ID, content int64) {
+	t.mu.Lock()
+	defer t.mu.Unlock()
 
 	_ = t.Guard.CanExecute(guardID)
 
@@ -1870,6 +1941,8 @@ func (t *treasure) SetContentInt64(guardID guard.ID, content int64) {
 }
 
 func (t *treasure) SetContentFloat32(guardID guard.ID, content float32) {
+	t.mu.Lock()
+	defer t.mu.Unlock()
 	_ = t.Guard.CanExecute(guardID)
 
 	// if treasure content is not changed, do nothing
@@ -1884,6 +1957,8 @@ func (t *treasure) SetContentFloat32(guardID guard.ID, content float32) {
 }
 
 func (t *treasure) SetContentFloat64(guardID guard.ID, content float64) {
+	t.mu.Lock()
+	defer t.mu.Unlock()
 	_ = t.Guard.CanExecute(guardID)
 
 	// if treasure content is not changed, do nothing
@@ -1898,6 +1973,8 @@ func (t *treasure) SetContentFloat64(guardID guard.ID, content float64) {
 }
 
 func (t *treasure) SetContentBool(guardID guard.ID, content bool) {
+	t.mu.Lock()
+	defer t.mu.Unlock()
 	_ = t.Guard.CanExecute(guardID)
 
 	// if treasure content is not changed, do nothing
@@ -1913,6 +1990,8 @@ func (t *treasure) SetContentBool(guardID guard.ID, content bool) {
 }
 
 func (t *treasure) SetContentByteArray(guardID guard.ID, content []byte) {
+	t.mu.Lock()
+	defer t.mu.Unlock()
 	_ = t.Guard.CanExecute(guardID)
 	// if the content is not changed, do nothing
 	if t.treasure.Content != nil && t.treasure.Content.ByteArray != nil && bytes.Equal(t.treasure.Content.ByteArray, content) {
@@ -1926,6 +2005,8 @@ func (t *treasure) SetContentByteArray(guardID guard.ID, content []byte) {
 
 // SetCreatedAt set the created at of the treasure to the current time without locking the mutex
 func (t *treasure) SetCreatedAt(guardID guard.ID, createdAt time.Time) {
+	t.mu.Lock()
+	defer t.mu.Unlock()
 	_ = t.Guard.CanExecute(guardID)
 	t.createdAtChanged = true
 	t.treasure.CreatedAt = createdAt.UTC().UnixNano()
